@@ -313,12 +313,18 @@ def search(pid, spec, seed, tier, workdir, known, violations, known_hits, budget
         for li, leg in enumerate(spec["legs"]):
             fam = load_family(leg["family"])
             rng = random.Random("%d/%s/%d/search%d" % (seed, pid, li, rnd))
-            cases = fam.gen(rng, "thorough" if rnd > 1 else tier, n=leg.get("n_search", 200), focus=leg.get("focus"))
+            # a leg may name a generator focus and extra (statistical) oracles that are used only while searching
+            sfocus = leg.get("search_focus") if (rnd % 2 == 1 and leg.get("search_focus")) else leg.get("focus")
+            cases = fam.gen(rng, "thorough" if rnd > 1 else tier, n=leg.get("n_search", 200), focus=sfocus)
             for i, c in enumerate(cases):
                 c.cid = "s%d_%d" % (rnd, i)
-            for profile in leg.get("profiles", ["debug"]):
+            profs = leg.get("profiles", ["debug"])
+            if sfocus and sfocus == leg.get("search_focus") and "release" in profs:
+                profs = ["release"]          # statistical search cases are heavy: optimised build only
+            for profile in profs:
                 cs = common.run_harness(leg["family"], cases, profile, workdir, "search%d" % li)
-                _, orc, err = common.run_model(fam, cs, leg.get("mask"), leg.get("oracles", []), workdir, "search%d" % li)
+                _, orc, err = common.run_model(fam, cs, leg.get("mask"), leg.get("oracles", []) + leg.get("search_oracles", []),
+                                               workdir, "search%d" % li)
                 if err:
                     continue
                 for o, idxs in orc.items():
